@@ -3,3 +3,4 @@ import SJ.Props.C13
 #print axioms SJ.Props.C13.c13_read_error_class
 #print axioms SJ.Props.C13.c13_write_prefix
 #print axioms SJ.Props.C13.c13_write_is_prefix
+#print axioms SJ.Props.C13.c13_buffers_utf8
